@@ -159,6 +159,15 @@ Fixpoint roll_m (p : path) (r : rtree (T:=T)) {struct r} : M nat :=
                                   else let '(h1, t) := euthanize h0 i in (h1, os ++ [t]))
                     (flat_map (roll_live hp) rids) (hp, []) in
         Ret (new_roll hp1 p outs rids))
+  | RFilterBy pred l =>
+      (* as RFilter, but the live outcome ids come paired with the position of their source roll in rids *)
+      mbind (sources l) (fun rids => fun hp =>
+        let '(hp1, outs) :=
+          fold_left (fun acc ki => let '(h0, os) := acc in
+                                   if pred (fst ki) (val_of h0 (snd ki)) then (h0, os ++ [snd ki])
+                                   else let '(h1, t) := euthanize h0 (snd ki) in (h1, os ++ [t]))
+                    (tagged_from (roll_live hp) 0%nat rids) (hp, []) in
+        Ret (new_roll hp1 p outs rids))
   | RSubst expand append depth r' =>
       let src := roll_m (p ++ [0%nat]) r' in
       (* _expanded_roll_outcomes(roll, depth): returns (outcome ids yielded, source rolls appended) *)
